@@ -7,6 +7,12 @@ CHECKS = {
  "C05": dict(engine="gcsim", technique=TECH+"seeded search over collection schedules (forced GC at every check_collect, host collects) x host operation histories on a thread tree; replayable decision tape; differential vs natural schedule + heap-walk/quarantine invariants",
    text="Seeded random exploration: every run executes one generated operation history on a fresh VM twice (natural vs tape-decided collection schedule) and checks transparency (same rendered outcomes), no freed object reachable or dereferenced (poison+quarantine, Trace-driven heap walk after every operation), the heap ownership invariant, sweep accounting (accounted == reachable after collect) and reclamation to the measured baseline. Evidence, not proof: schedules are sampled at check_collect granularity.",
    note="Trusted: the guarded hooks in vm/src/gc.rs (owner ids, freed flag, visitor mark) report the heap faithfully; generated programs terminate; the natural-threshold execution is the reference schedule.", ref="DESIGN.md §4 C05"),
+ "C06": dict(engine="faultsim", technique=TECH+"seeded histories of failing/succeeding/IO/primitive evaluations on one long-lived VM with faults injected at debug-hook yields (interrupt, allocation failure, stack limit, cancellation, collections); every step mirrored on a fresh VM; crashes attributed per seed through isolated worker processes",
+   text="Seeded exploration of evaluation histories with fault injection: outcome of every step equals a brand-new VM's (or is the injected error), no panic/abort of the worker process, value stack and accounted memory return to their pre-step level after failed steps. Plus `sim primsweep`: exhaustive enumeration of every exported primitive x boundary tuple (21k calls) used during triage.",
+   note="Trusted: generated programs are pure, so a fresh VM is the exact reference; worker-process death is attributed to the seed that was running.", ref="DESIGN.md §4 C06"),
+ "C07": dict(engine="faultsim", technique=TECH+"limit classes: memory limit and stack limit sweeps with accounted memory sampled at every check_collect (guarded hook), tail-call families at n=10/1000/30000 compared by minimal sufficient stack limit and peak frame count, interrupt fired at a chosen CALL event with a bounded-liveness oracle (<= 3 further CALL events), native recursion through extern functions",
+   text="Seeded exploration over (program family, limit) configurations: outcome is the unlimited result or the corresponding limit error, accounted memory never above the limit at any check_collect, stack restored, tail recursive families need the same stack for every n, interrupts are delivered within 3 CALL events and leave the VM usable.",
+   note="Trusted: sampling points (check_collect, CALL events) are dense enough; promptness is measured in interpreter events, not wall time.", ref="DESIGN.md §4 C07"),
  "C12": dict(engine="storesim", technique=TECH+"simulated storage (FaultyWriter/FaultyReader under serde_json: short writes, EINTR, EIO, disk full, torn file, undefined references) and restart into a fresh VM, seeded fault schedules with replay",
    text="Seeded fault enumeration over the bytecode store path: each run compiles a generated program (with generated inline modules) to bytecode on a simulated disk under injected write faults, optionally tears or corrupts the file, and loads it back under injected read faults into the same / a fresh / a module-less VM. Oracles: equivalence with the source when only benign faults fired; an error (never Ok, panic or hang) for I/O errors, truncation and undefined references; VM still usable afterwards.",
    note="Trusted: serde_json as the on-disk format; a second VM in the same process stands in for a restarted process (only the byte vector survives).", ref="DESIGN.md §4 C12"),
@@ -27,7 +33,7 @@ NA = {
  "C19":"immutable single-threaded library code; operation sequences are inputs to pure functions",
  "C20":"pure function of (program, cursor offset)",
 }
-PLANNED = {"C06":"faultsim","C07":"faultsim","C13":"gcsim","C14":"threadsim","C15":"modsim","C16":"detsim"}
+PLANNED = {"C13":"gcsim","C14":"threadsim","C15":"modsim","C16":"detsim"}
 
 def commits():
     out = subprocess.run(["git","-C","/repo","log","--format=%h %s"],capture_output=True,text=True).stdout
